@@ -1,5 +1,5 @@
 #!/usr/bin/env python3
-"""Run the quick (or thorough) check of the owning property against every seeded change, in a scratch worktree of /repo.
+"""Run the quick check of the owning property against every BENIGN change in /verif/benign: none may raise an alarm.
 
 usage: mutant_matrix.py [--tier quick] [--only C04_m1,C05_m2] [--extra]   (writes /verif/seeded/RESULTS.json and meta.json 'detected_by')
 Never touches /repo's working tree: a detached worktree under /tmp is created, each patch is applied there and reverted.
@@ -15,16 +15,16 @@ def main():
     a = sys.argv[1:]
     tier = a[a.index('--tier') + 1] if '--tier' in a else 'quick'
     only = a[a.index('--only') + 1].split(',') if '--only' in a else None
-    wt = '/tmp/wt_matrix_%d' % os.getpid()
+    wt = '/tmp/wt_bmatrix_%d' % os.getpid()
     r = sh('git -C /repo worktree add -q --detach %s HEAD' % wt)
     if r.returncode:
         print(r.stdout); return 2
     results = {}
-    resfile = os.path.join(V, 'seeded', 'RESULTS.json')
+    resfile = os.path.join(V, 'benign', 'RESULTS.json')
     if os.path.exists(resfile):
         results = json.load(open(resfile))
     try:
-        for d in sorted(glob.glob(os.path.join(V, 'seeded', 'C??_m*'))):
+        for d in sorted(glob.glob(os.path.join(V, 'benign', 'C??_b*'))):
             name = os.path.basename(d)
             if only and name not in only:
                 continue
@@ -43,29 +43,20 @@ def main():
                 if viol:
                     idx = rr.stdout.splitlines().index(viol[0])
                     first = ' '.join(rr.stdout.splitlines()[idx + 1:idx + 2])[:300]
-                # keep the shrunk reproducers as regression cases of the owning property's check
-                for vl in viol:
-                    rp = vl.split('replay=')[-1].strip()
-                    if rp.endswith('.case') and os.path.exists(rp):
-                        cl = os.path.basename(rp).rsplit('-', 1)[0]
-                        if cl in ('crash', 'fuzz') or cl.startswith('regress'):
-                            continue
-                        dst = os.path.join(V, 'regress', p, '%s-%s.case' % (name, cl))
-                        os.makedirs(os.path.dirname(dst), exist_ok=True)
-                        import shutil
-                        shutil.copy(rp, dst)
                 det[p] = {'detected': bool(viol), 'exit': rr.returncode, 'violations': len(viol), 'first': first, 'wall_s': round(time.time() - t0, 1)}
-                print(name, p, 'DETECTED' if viol else 'MISSED', '%.0fs' % (time.time() - t0), flush=True)
+                print(name, p, 'FALSE-ALARM' if viol else 'quiet', 'exit=%d' % rr.returncode, '%.0fs' % (time.time() - t0), flush=True)
+                if viol:
+                    print('   ', viol[0], '|', first, flush=True)
             sh('git -C %s checkout -- .' % wt)
             results[name] = {'status': 'ran', 'tier': tier, 'base': sh('git -C /repo rev-parse --short HEAD').stdout.strip(), 'checks': det}
-            meta['detected_by'] = sorted(p for p, v in det.items() if v['detected'])
+            meta['alarms'] = sorted(p for p, v in det.items() if v['detected'] or v['exit'] != 0)
             json.dump(meta, open(os.path.join(d, 'meta.json'), 'w'), indent=1)
             json.dump(results, open(resfile, 'w'), indent=1, sort_keys=True)
     finally:
         sh('git -C /repo worktree remove --force %s' % wt)
         sh('rm -rf %s' % wt)
-    missed = [n for n, v in results.items() if v.get('status') == 'ran' and not any(c['detected'] for c in v['checks'].values())]
-    print('seeded changes: %d, missed by every check tried: %s' % (len(results), missed))
+    alarms = [n for n, v in results.items() if v.get('status') == 'ran' and any(c['detected'] or c['exit'] != 0 for c in v['checks'].values())]
+    print('benign changes: %d, alarms: %s' % (len(results), alarms))
     return 0
 
 if __name__ == '__main__':
